@@ -52,9 +52,15 @@ class SymApi(BaseApi):
                      else P.sym_int("%s[%d]" % (name, k)) for k in range(n)]
             return items
         a = SymArr.fresh(name, n, sort)
-        if positive or nonzero:
-            a.elem_fact = (lambda e: e > 0) if positive else (lambda e: e != 0)
+        if positive:
+            a.constrain(lambda e: e > 0)
+        elif nonzero:
+            a.constrain(lambda e: e != 0)
         return a
+
+    def constrain_array(self, a, lo, hi):
+        """elements of input array a lie in [lo, hi)"""
+        a.constrain(lambda e: z3.And(e >= lo, e < hi))
 
     def index(self, name, n):
         k = P.sym_int(name, 0, None)
@@ -106,6 +112,11 @@ class SymApi(BaseApi):
             self.ctx.assume(rz == P.FMOD(x / S, y / S))      # congruence from .arg0/.arg1
             self.ctx.assume(z3.Implies(S > 0, P.FMOD(x, y) == S * P.FMOD(x / S, y / S)))
         self.ctx.oblige(oid, rz * S == P.FMOD(x, y), "ensures")
+
+    def lemma(self, name, fact):
+        """instance of a named lemma of the lemma library (assumed here, proved in lemmas/)"""
+        self.lemmas += 1
+        self.ctx.assume(self._z(fact))
 
     def ite(self, c, a, b):
         cz = self._z(c)
